@@ -1,6 +1,6 @@
 //go:build verif
 
-package fp25519
+package fp25519_test
 
 // C14 for math/fp25519: the same operand alphabet through every exported operation under each
 // build/CPU configuration; the driver diffs the per-case digests. Back-ends: fp_noasm.go (purego),
@@ -10,12 +10,13 @@ import (
 	"testing"
 
 	"github.com/cloudflare/circl/internal/verifc14"
+	fp "github.com/cloudflare/circl/math/fp25519"
 )
 
-func c14Elt(b []byte) *Elt { e := new(Elt); copy(e[:], b); return e }
+func c14Elt(b []byte) *fp.Elt { e := new(fp.Elt); copy(e[:], b); return e }
 
-func c14Junk() *Elt {
-	e := new(Elt)
+func c14Junk() *fp.Elt {
+	e := new(fp.Elt)
 	for i := range e {
 		e[i] = byte(0xa5 ^ i)
 	}
@@ -23,11 +24,11 @@ func c14Junk() *Elt {
 }
 
 func c14Field() *verifc14.Field {
-	bin := map[string]func(z, x, y *Elt){"Add": Add, "Sub": Sub, "Mul": Mul}
-	un := map[string]func(z, x *Elt){"Sqr": Sqr, "Neg": Neg, "Inv": Inv,
-		"Modp": func(z, x *Elt) { *z = *x; Modp(z) }}
+	bin := map[string]func(z, x, y *fp.Elt){"Add": fp.Add, "Sub": fp.Sub, "Mul": fp.Mul}
+	un := map[string]func(z, x *fp.Elt){"Sqr": fp.Sqr, "Neg": fp.Neg, "Inv": fp.Inv,
+		"Modp": func(z, x *fp.Elt) { *z = *x; fp.Modp(z) }}
 	return &verifc14.Field{
-		Name: "GF(2^255-19)", Size: Size,
+		Name: "GF(2^255-19)", Size: fp.Size,
 		BinOps: []string{"Add", "Sub", "Mul"}, UnOps: []string{"Sqr", "Neg", "Inv", "Modp"}, PredOps: []string{"IsZero"},
 		Bin: func(op string, alias int, xb, yb []byte) []byte {
 			x, y, z := c14Elt(xb), c14Elt(yb), c14Junk()
@@ -48,24 +49,28 @@ func c14Field() *verifc14.Field {
 			un[op](z, x)
 			return z[:]
 		},
-		Pred: func(op string, xb []byte) bool { return IsZero(c14Elt(xb)) },
+		Pred: func(op string, xb []byte) bool { return fp.IsZero(c14Elt(xb)) },
 		Canon: func(xb []byte) []byte {
-			out := make([]byte, Size)
-			if err := ToBytes(out, c14Elt(xb)); err != nil {
+			out := make([]byte, fp.Size)
+			if err := fp.ToBytes(out, c14Elt(xb)); err != nil {
 				panic(err)
 			}
 			return out
 		},
-		AddSub: func(xb, yb []byte) ([]byte, []byte) { x, y := c14Elt(xb), c14Elt(yb); AddSub(x, y); return x[:], y[:] },
-		Cmov:   func(xb, yb []byte, b uint) []byte { x, y := c14Elt(xb), c14Elt(yb); Cmov(x, y, b); return x[:] },
+		AddSub: func(xb, yb []byte) ([]byte, []byte) {
+			x, y := c14Elt(xb), c14Elt(yb)
+			fp.AddSub(x, y)
+			return x[:], y[:]
+		},
+		Cmov: func(xb, yb []byte, b uint) []byte { x, y := c14Elt(xb), c14Elt(yb); fp.Cmov(x, y, b); return x[:] },
 		Cswap: func(xb, yb []byte, b uint) ([]byte, []byte) {
 			x, y := c14Elt(xb), c14Elt(yb)
-			Cswap(x, y, b)
+			fp.Cswap(x, y, b)
 			return x[:], y[:]
 		},
 		InvSqrt: func(xb, yb []byte) ([]byte, bool) {
 			x, y, z := c14Elt(xb), c14Elt(yb), c14Junk()
-			ok := InvSqrt(z, x, y)
+			ok := fp.InvSqrt(z, x, y)
 			return z[:], ok
 		},
 	}
@@ -73,14 +78,14 @@ func c14Field() *verifc14.Field {
 
 func TestVerifC14_fp25519(t *testing.T) {
 	c := verifc14.Start(t, "fp25519")
-	c.Backend("math/fp25519.hasBmi2Adx", c14Backend(), verifc14.FpSel)
+	c.BackendOptional("math/fp25519.hasBmi2Adx", fp.C14ReadBackend, verifc14.FpSel)
 	m1, b63 := ^uint64(0), uint64(1)<<63
 	wide := []uint64{2, 18, 19, 20, 37, 38, 39, 1<<32 - 1, 1 << 32, b63 - 1, b63 + 1, m1 - 38, m1 - 37, m1 - 19, m1 - 18, m1 - 1}
-	pp := P()
-	twoP := verifc14.AddSmall(make([]byte, Size), -38) // 2p = 2^256-38
-	p255 := make([]byte, Size)
+	pp := fp.P()
+	twoP := verifc14.AddSmall(make([]byte, fp.Size), -38) // 2p = 2^256-38
+	p255 := make([]byte, fp.Size)
 	p255[31] = 0x80
-	named := map[string][]byte{"p": pp[:], "2p": twoP, "2^255": p255, "2^256-20": verifc14.AddSmall(make([]byte, Size), -20)}
+	named := map[string][]byte{"p": pp[:], "2p": twoP, "2^255": p255, "2^256-20": verifc14.AddSmall(make([]byte, fp.Size), -20)}
 	all := verifc14.FieldAlphabet(4, wide, named, -19, 19, c.R.Pick(8, 64), "fp25519")
 	key := verifc14.Thin(all, c.R.Pick(48, 160))
 	c.R.Rule("operands: every 32-byte string whose four limbs are in {0,1,2^63,2^64-1}; every string one limb away from 00../FF.. over a 16-value limb list; " +
